@@ -414,6 +414,110 @@ class DefaultEnvironment(Contract):
                  watch={"host_env": self.env, "result": result})
 
 
+# --------------------------------------------------------------------------- the CLI's choice of configuration file
+MAINMOD = "src/chuk_mcp/__main__.py"
+
+
+class ArgsEnv(E.EnvClass):
+    name = "ArgparseNamespace"
+    methods = {}
+
+
+class ParserEnv(E.EnvClass):
+    """argparse.ArgumentParser: add_argument declares, parse_args returns the namespace of this invocation"""
+    name = "ArgumentParser"
+
+    def __init__(self):
+        self.methods = {"add_argument": lambda I, r, a, k: V.NONE, "parse_args": self.parse_args}
+
+    def parse_args(self, I, recv, args, kwargs):
+        return I.c20cli.args_obj
+
+
+class PathEnv(E.EnvClass):
+    """pathlib.Path(p): exists() / is_file() are facts about the file system (any bool)"""
+    name = "PathlibPath"
+
+    def __init__(self):
+        self.methods = {"exists": lambda I, r, a, k: V.VBool(I.fresh_bool("path_exists")),
+                        "is_file": lambda I, r, a, k: V.VBool(I.fresh_bool("path_is_file")),
+                        "__str__": lambda I, r, a, k: E.gfield(I, r, "text")}
+
+
+ARGS_ENV, PARSER_ENV, PATH_ENV = ArgsEnv(), ParserEnv(), PathEnv()
+
+
+class FindDefaultModular(Contract):
+    key = f"{MAINMOD}::find_default_config"
+
+    def apply(self, I, args, kwargs, node):
+        if I.choose_n(2, "default_config_found") == 1:
+            return V.NONE
+        p = I.fresh("default_config_path")
+        I.assume(z3.And(V.is_str(p), z3.Length(Val.s(p)) > 0))
+        return p
+
+
+class RecordPathModular(Contract):
+    """list_servers(config_path) / setup_logging(...): recorded, no effect"""
+
+    def __init__(self, key, record):
+        self.key, self.record = key, record
+
+    def apply(self, I, args, kwargs, node):
+        if self.record:
+            I.c20cli.used_paths.append(args[0])
+        return V.NONE
+
+
+class CliMain(Contract):
+    """main(): a configuration file named on the command line is THE configuration - it is what list_servers / the test
+    run get, whether or not that file exists (a missing file is reported by the loader, never silently replaced by a
+    default found elsewhere); the default search runs only when no --config was given"""
+    key = f"{MAINMOD}::main"
+    prop = "C20"
+    covers = ("return", "raise:SystemExit")
+
+    def setup(self, I):
+        I.c20cli = self
+        self.used_paths = []
+        ctx = I.ctx
+        for e in (ARGS_ENV, PARSER_ENV, PATH_ENV):
+            ctx.env_class(e)
+        cfg = I.fresh("arg_config")
+        I.assume(z3.Or(V.is_none(cfg), z3.And(V.is_str(cfg), z3.Length(Val.s(cfg)) > 0)))
+        self.cfg = cfg
+        server = I.fresh("arg_server")
+        I.assume(V.is_str(server))
+        self.args_obj = E.new_env_object(I, ARGS_ENV, config=cfg, server=server, verbose=V.VBool(I.fresh_bool("verbose")),
+                                         list_servers=V.VBool(I.fresh_bool("list_servers")))
+        ctx.extern_handlers["argparse.ArgumentParser"] = lambda I2, a, k, n: E.new_env_object(I2, PARSER_ENV)
+        ctx.extern_values = dict(getattr(ctx, "extern_values", {}) or {})
+        ctx.extern_handlers["pathlib.Path"] = lambda I2, a, k, n: E.new_env_object(I2, PATH_ENV, text=a[0] if a else V.VStr("."))
+
+        def run(I2, a, k, n):
+            self.used_paths.append(a[1] if len(a) > 1 else V.NONE)
+            return V.VBool(I2.fresh_bool("test_succeeded"))
+        ctx.extern_handlers["anyio.run"] = run
+        ctx.extern_handlers["sys.exit"] = lambda I2, a, k, n: I2.throw("SystemExit", "exit")
+        return [], {}
+
+    def judge(self, I):
+        given = z3.Not(V.is_none(self.cfg))
+        ok = [z3.Implies(given, p == self.cfg) for p in self.used_paths]
+        I.oblige(self.name("a_config_named_on_the_command_line_is_the_one_used"), z3.And(ok) if ok else z3.BoolVal(True),
+                 watch={"--config": self.cfg, "used": V.VList(self.used_paths) if self.used_paths else V.VList([])})
+
+    def post(self, I, result):
+        self.judge(I)
+
+    def post_exc(self, I, e):
+        if e.cls_name == "SystemExit":
+            self.judge(I)
+        else:
+            I.oblige(self.name(f"only_exits_through_sys_exit[{e.cls_name}]"), z3.BoolVal(False))
+
+
 class DefaultEnvModular(Contract):
     key = f"{ENVMOD}::get_default_environment"
 
@@ -509,14 +613,17 @@ class C20(Check):
         ctx.dynamic_call_hook = dyn
 
     def modular(self):
-        return {f"{ENVMOD}::get_default_environment": DefaultEnvModular(),
+        return {f"{MAINMOD}::find_default_config": FindDefaultModular(),
+                f"{MAINMOD}::list_servers": RecordPathModular(f"{MAINMOD}::list_servers", True),
+                f"{MAINMOD}::setup_logging": RecordPathModular(f"{MAINMOD}::setup_logging", False),
+                f"{ENVMOD}::get_default_environment": DefaultEnvModular(),
                 f"{CONFIG}::load_config": LoadConfigModular(),
                 f"{STDIO}::stdio_client": StdioClientModular(),
                 f"{INIT}::send_initialize": SendInitializeModular()}
 
     def contracts(self):
         cs = [LoadConfig(s) for s in ("valid", "missing_file", "invalid_json", "unknown_server")]
-        cs += [SpawnContract(), DefaultEnvironment()]
+        cs += [SpawnContract(), DefaultEnvironment(), CliMain()]
         cs += [TestServerEntry(), RunCommandEntry()]
         return cs
 
